@@ -387,10 +387,12 @@ fn reader_suite(ctx: &mut Ctx) {
         let mut expect: Result<Vec<u8>, ()> = Ok(vec![]);
         let nblk = ctx.rng.below(5);
         for _ in 0..nblk {
-            let len = match ctx.rng.below(6) {
+            let len = match ctx.rng.below(8) {
                 0 => 0,
                 1 => 65536,
                 2 => 65535,
+                3 => 65505,               // stored: member of exactly 65536 bytes (BSIZE = 0xffff)
+                4 => 65504,
                 _ => ctx.rng.below(300) as usize,
             };
             let d = gen_payload(&mut ctx.rng, len);
@@ -480,6 +482,9 @@ pub fn run(ctx: &mut Ctx) {
         ctx.bump(if finish { "end_finish" } else { "end_drop" });
         ctx.bump(&format!("payload_len_class_{}", match h.written.len() { 0 => "0", 1..=100 => "1-100", 101..=65494 => "101-65494", 65495..=65536 => "65495-65536", 65537..=131000 => "64k-128k", _ => ">128k" }));
         ctx.bump_by("blocks_written", split_members(&h.sink).map(|m| m.len() as u64).unwrap_or(0));
+        if split_members(&h.sink).map(|m| m.iter().any(|x| x.whole.len() == 65536)).unwrap_or(false) {
+            ctx.bump("member_of_exactly_64KiB");
+        }
         if dumped < 16 && (it % (n / 16).max(1) == 0) {
             let _ = std::fs::write(format!("/verif/work/C01/pyref/{dumped:02}.bgzf"), &h.sink);
             let _ = std::fs::write(format!("/verif/work/C01/pyref/{dumped:02}.raw"), &h.written);
@@ -490,10 +495,13 @@ pub fn run(ctx: &mut Ctx) {
         }
     }
     // every staged length around the limits, incompressible, every level (level-0 fallback zone)
-    let lens: Vec<usize> = if ctx.tier_thorough { (65400..=65600).collect() } else { vec![65494, 65495, 65496, 65510, 65535, 65536, 65537] };
+    // (zlib's output for incompressible input is input + ~20 bytes above level 1, so lengths just
+    // below the staging limit give members of exactly 64 KiB and lengths at the limit take the
+    // level-0 fallback)
+    let lens: Vec<usize> = if ctx.tier_thorough { (65400..=65600).collect() } else { vec![65484, 65485, 65486, 65487, 65488, 65489, 65490, 65491, 65492, 65493, 65494, 65495, 65496, 65510, 65535, 65536, 65537] };
     for &len in &lens {
         for level in 0..=9u8 {
-            if !ctx.tier_thorough && ![0u8, 1, 6, 9].contains(&level) {
+            if !ctx.tier_thorough && ![0u8, 1, 2, 6, 9].contains(&level) {
                 continue;
             }
             let mut r = Rng::new(len as u64 * 31 + level as u64);
@@ -501,6 +509,10 @@ pub fn run(ctx: &mut Ctx) {
             let ops = vec![Op::All(payload)];
             let h = run_real(level, true, &ops);
             oracle_history(ctx, level, true, &ops, &h, &format!("incompressible {len} {level}"));
+            corr_history(ctx, level, true, &h);
+            if split_members(&h.sink).map(|m| m.iter().any(|x| x.whole.len() == 65536)).unwrap_or(false) {
+                ctx.bump("member_of_exactly_64KiB");
+            }
             ctx.bump("incompressible_edge");
         }
     }
